@@ -310,6 +310,7 @@ class _Model:
         self.vmin = self.vmax = None          # over all observations
         self.pmin = self.pmax = None          # over positively weighted observations
         self.in_range = True
+        self.x_in_range = True
         self.wlo = self.whi = None
         self.wmax_ratio = False
 
@@ -338,6 +339,8 @@ class _Model:
             self.pmax = x
         if not (RANGE_LO <= fw <= RANGE_HI) or (x != 0 and not (RANGE_LO <= abs(fx) <= RANGE_HI)):
             self.in_range = False
+        if x != 0 and not (RANGE_LO <= abs(fx) <= RANGE_HI):
+            self.x_in_range = False
 
 
 def _size_label(n):
@@ -682,6 +685,18 @@ def _run_weighted(ctx):
             return
         if not m.in_range:
             out.label("accuracy:out-of-range")
+            # weights of any finite magnitude (subnormal, huge) with values of ordinary magnitude: the mean is a
+            # convex combination of the values - it needs no product of a weight with a value, so it is as accurate
+            # as with ordinary weights as long as the sum of the weights is finite
+            g = got["weighted_mean"]
+            if m.x_in_range and m.M >= 1 and g is not _RAISED and m.W < Fraction(1.7e308) and m.whi < m.wlo * (1 << 40):
+                exact = float(m.WX / m.W)
+                scale = max(abs(m.pmin), abs(m.pmax))
+                if not (isinstance(g, float) and abs(g - exact) <= 1e-9 * scale * max(1, m.M)):
+                    out.fail("value:weighted_mean:extreme-weights",
+                             {"got": _enc(g), "exact": _enc(exact), "positive_weights": m.M,
+                              "weights_between": [_enc(float(m.wlo)), _enc(float(m.whi))]})
+                out.label("mean-checked-with-extreme-weights")
             return
         compared += 1
         _check_weighted_values(out, got, m)
